@@ -214,8 +214,11 @@ func (n *ResponderInterceptor) resendPackets(nack *rtcp.TransportLayerNack) {
 			stream.rtpBufferMutex.Unlock()
 
 			if p != nil {
-				// send without holding rtpBufferMutex
-				if _, err := stream.rtpWriter.Write(p.Header(), p.Payload(), interceptor.Attributes{}); err != nil {
+				// send without holding rtpBufferMutex. Every retransmission gets a header of its own:
+				// several NACKs for one packet are answered by goroutines running at the same time, and
+				// writers further down (the transport-wide CC header extension) modify the header they get.
+				hdr := p.Header().Clone()
+				if _, err := stream.rtpWriter.Write(&hdr, p.Payload(), interceptor.Attributes{}); err != nil {
 					n.log.Warnf("failed resending nacked packet: %+v", err)
 				}
 				p.Release()
